@@ -164,4 +164,43 @@ theorem c03_captures (s : Repo) (hinv : RepoInv s) (hasDefault : Bool) (q : ReqV
           · have hk' : keys = f.keys := by rw [hkeys, hnkeys, ← hjk, ← hmk]
             rw [← h.2, ← hl, hk']; rfl
 
+/-- **Exposed values, end to end** (`serve` = lookup + the part of rule execution before the pipeline): when a
+regular rule answers and the request is accepted, the values exposed under the wildcard names are the named wildcards
+of one of the rule's routes paired with the matched segments of the (normalised) request path — a name used twice
+keeps its last segment —, each percent-decoded according to the rule's encoded-slash setting; unnamed wildcards are
+not exposed; and a rule with the setting `off` never accepts a request whose path contains an encoded slash. -/
+theorem c03_exposed (s : Repo) (hinv : RepoInv s) (d : Bool) (q : ReqView) (src rid : String)
+    (exposed : List (String × String)) (hsrc : src ≠ "config")
+    (h : s.serve d q = ⟨some (src, rid), some (.ok exposed)⟩) :
+    ∃ r ∈ s.known, ∃ rt ∈ r.cfg.routes, ∃ pat keys segs,
+      r.src = src ∧ r.cfg.id = rid ∧
+      parsePat rt.1 = .ok (pat, keys) ∧
+      matchCaps pat (tokenize (lookupPath q)) = some segs ∧
+      routeMatches rt.2 q keys segs = true ∧
+      exposed = (lastWins ((keys.zip segs).filter (fun kv => kv.1 ≠ "*"))).map
+        (fun kv => (kv.1, unescapeCapture r.cfg.esh kv.2)) ∧
+      ¬ (r.cfg.esh = .off ∧ containsEncodedSlash q.rawPath = true) := by
+  unfold Repo.serve at h
+  cases hf : s.findRule d q with
+  | none => simp [hf] at h
+  | default =>
+    simp only [hf, Served.mk.injEq, Option.some.injEq, Prod.mk.injEq] at h
+    exact absurd h.1.1.symm hsrc
+  | rule v ps =>
+    simp only [hf, Served.mk.injEq, Option.some.injEq, Prod.mk.injEq] at h
+    obtain ⟨⟨hs, hr⟩, hex⟩ := h
+    obtain ⟨r, hrk, rt, hrt, pat, keys, segs, hp, hv, hm, hrm, hps⟩ := c03_captures s hinv d q v ps hf
+    have hvs : v.src = r.src := by rw [hv]
+    have hvr : v.rid = r.cfg.id := by rw [hv]
+    have hve : v.esh = r.cfg.esh := by rw [hv]
+    refine ⟨r, hrk, rt, hrt, pat, keys, segs, by rw [← hvs, hs], by rw [← hvr, hr], hp, hm, hrm, ?_, ?_⟩
+    · unfold execPrelude at hex
+      split at hex
+      · cases hex
+      · rw [← hps, ← hve]; exact (ExecResult.ok.inj hex).symm
+    · intro ⟨hoff, hsl⟩
+      unfold execPrelude at hex
+      rw [hve, hoff] at hex
+      simp [hsl] at hex
+
 end Heimdall.Props.C03
